@@ -161,6 +161,13 @@ let handle (x : sx) : ostring =
        | Ok f -> "OK " ^ OS.concat " ; " (List.map ocaml_string f)
        | Rtamt -> "RTAMT"
        | Crash -> "CRASH")
+  | L [A "dn"; pk; f; L w] ->
+      let pk = pk_of_sx pk and f = formula_of_sx f in
+      let sig_of = function L smp -> List.map (function L [t; v] -> (z_of_int (int_of_string (atom t)), (Obj.magic (extz_of_string (atom v)) : v)) | _ -> failwith "sample") smp | _ -> failwith "sig" in
+      let w = List.map sig_of w in
+      let out = run_dn pk f (Obj.magic w) in
+      "DN " ^ OS.concat " " (List.map (fun (t, v) -> string_of_int (int_of_z t) ^ ":" ^ string_of_extz (Obj.magic v)) (Obj.magic out))
+      ^ " | EXACT " ^ show_bool (dn_exact pk f (Obj.magic w))
   | L [A "info"; f] ->
       let f = formula_of_sx f in
       Printf.sprintf "HOR %d | BF %s | PAST %s | ISBOOL %s" (int_of_nat (run_hor f)) (show_bool (run_bounded_future f))
